@@ -3,49 +3,65 @@
 (* C05 — what a BASM source program MEANS (reference semantics over the    *)
 (* SOURCE text, not over the assembled machine).                           *)
 (*                                                                         *)
-(* A program is a sequence of source lines [op, a, b, t, nt] of one        *)
-(* .romtext section of one processor with synchronous I/O:                 *)
+(* A source has NCP (1 or 2) connecting processors, each with one .romtext *)
+(* section of Len0 lines [op, a, b, t, nt] with synchronous I/O:           *)
 (*   clr/inc/dec rA          add rA, rB        cpy|mov rA, rB              *)
 (*   rset|mov rA, literal    (the literal is value b printed in notation   *)
 (*                            nt: dec, 0x, 0b, 0d, 0u)                     *)
-(*   mov oA, rB  (send rB on external output A)   mov rA, iB (receive)     *)
+(*   mov oA, rB  (send rB on output A)     mov rA, i0  (receive)           *)
 (*   j L   jz rA, L          (t = index of the line that carries label L)  *)
 (*   nop     twice           (a macro of zero parameters: inc r1 ; inc r1)  *)
-(* and an entry directive naming the label of line `entry`.                *)
+(* and an entry directive naming the label of line `entry`, written before *)
+(* line epos (before or after that line's own label).                      *)
 (* Every label operand denotes the line that follows the label; execution  *)
 (* starts at the declared entry; a pseudo-instruction has the effect its    *)
 (* source form states; a literal loads the value it denotes; registers     *)
-(* wrap around at the register size.  The observable is the sequence of    *)
-(* values sent on each external output.                                    *)
+(* wrap around at the register size.  The section's iomode (sync) prevails *)
+(* over the machine-wide default gio written in the bmdef line.            *)
 (*                                                                         *)
-(* A behaviour first BUILDS a random program (phase "build"), then RUNS it *)
-(* for at most Budget steps (phase "run"), consuming the external input     *)
+(* Wiring (ioatt): processor 0 reads the external input on i0.  With one   *)
+(* processor its outputs o0..o(NOut-1) are the external outputs.  With two, *)
+(* o0 of processor 0 is external output 0, o1 of processor 0 is bonded to  *)
+(* i0 of processor 1, and o0, o1 of processor 1 are external outputs 1, 2. *)
+(* A synchronous send completes when the consumer has taken the value, a   *)
+(* receive when a value is offered: the bond is a rendezvous.  The         *)
+(* observable is the sequence of values on each external output, which is  *)
+(* the same for every schedule (a Kahn network).                           *)
+(*                                                                         *)
+(* A behaviour first BUILDS the programs (phase "build"), then RUNS them   *)
+(* for at most Budget rounds (phase "run"), consuming the external input   *)
 (* stream 1, 2, 3, ...  TLC -simulate produces programs with their         *)
 (* expected output streams; the harness prints each as .basm text, runs    *)
 (* the real assembler and the real simulator and compares the streams.     *)
 (*                                                                         *)
 (* Two interpreters run side by side on the same program: ref, the meaning *)
 (* of the source, and asc, the meaning AS CODED in the pinned tree, which  *)
-(* differs in the documented deviations (Deviation...): only ref decides;  *)
+(* differs in the documented deviations (AsCoded...): only ref decides;    *)
 (* asc tells a known finding from a new one.                               *)
 (***************************************************************************)
 EXTENDS Integers, Sequences, FiniteSets, TLC
 
-CONSTANTS RSize, Len0, Budget, NOut, EntryAnywhere, DirectiveAnywhere, MacroHeavy
+CONSTANTS RSize, Len0, Budget, NOut, NCP, EntryAnywhere, DirectiveAnywhere, MacroHeavy
+
+ASSUME NCP \in {1, 2} /\ (NCP = 2 => NOut = 2)
 
 Mod == 2 ^ RSize
 Regs == 0 .. 3
-Lits == {0, 1, 2, 5, Mod - 1, Mod \div 2 + 3}
+CPs == 0 .. NCP - 1
+\* boundary values, and values whose binary / hexadecimal forms have digit counts that are not
+\* multiples of 8 / 2
+Lits == {0, 1, 2, 5, Mod - 1, Mod \div 2 + 3, Mod \div 64 + 1, Mod \div 8 + Mod \div 16 + 1}
 Notations == {"dec", "0x", "0b", "0d", "0u"}
 
-VARIABLES phase, prog, entry, epos, lbd, ref, asc, steps, lastio
-vars == <<phase, prog, entry, epos, lbd, ref, asc, steps, lastio>>
+VARIABLES phase, progs, entry, epos, lbd, gio, attfirst, ref, asc, steps, lastio
+vars == <<phase, progs, entry, epos, lbd, gio, attfirst, ref, asc, steps, lastio>>
+shape == <<entry, epos, lbd, gio, attfirst>>
 
 L(op, a, b, t, nt) == [op |-> op, a |-> a, b |-> b, t |-> t, nt |-> nt]
 
-\* lines that may be appended at position i (0-based) of a program of Len0 lines; I/O lines on
-\* the same port are kept at least three lines apart (the synchronous handshake of the pinned
-\* tree needs the spacing, see the known findings of C04)
+\* lines that may be appended to a program; I/O lines of one processor are kept at least three
+\* lines apart (the synchronous handshake of the pinned tree needs the spacing, see the known
+\* findings of C04)
 Plain ==
   {L(o, a, 0, 0, "") : o \in {"clr", "inc", "dec"}, a \in Regs} \cup
   {L(o, a, b, 0, "") : o \in {"add", "cpy", "movrr"}, a \in Regs, b \in Regs} \cup
@@ -55,41 +71,40 @@ Jumps == {L("j", 0, 0, t, "") : t \in 0 .. Len0 - 1} \cup {L("jz", a, 0, t, "") 
 Sends == {L("send", o, b, 0, "") : o \in 0 .. NOut - 1, b \in Regs}
 Recvs == {L("recv", a, 0, 0, "") : a \in Regs}
 
-M0 == [pc |-> 0, regs |-> [r \in Regs |-> 0], outs |-> <<>>, nin |-> 0]
+M0 == [pc |-> 0, regs |-> [r \in Regs |-> 0], nin |-> 0]
+I0 == [cps |-> [c \in CPs |-> M0], outs |-> <<>>]
 
 Init ==
-  /\ phase = "build" /\ prog = <<>> /\ entry \in (IF EntryAnywhere THEN 0 .. Len0 - 1 ELSE {0})
+  /\ phase = "build" /\ progs = <<<<>>>>
+  /\ entry \in (IF EntryAnywhere THEN 0 .. Len0 - 1 ELSE {0})
   /\ epos \in (IF DirectiveAnywhere THEN 0 .. Len0 - 1 ELSE {0})     \* the entry directive is written before line epos
   /\ lbd \in (IF DirectiveAnywhere THEN BOOLEAN ELSE {FALSE})         \* the label of line epos is written BEFORE the directive
-  /\ ref = M0 /\ asc = M0 /\ steps = 0 /\ lastio = -10
+  /\ gio \in {"none", "sync", "async"}                                \* machine-wide default iomode in the bmdef line
+  /\ attfirst \in BOOLEAN                                             \* which end of an ioatt pair is written first
+  /\ ref = I0 /\ asc = I0 /\ steps = 0 /\ lastio = -10
 
+Cur == progs[Len(progs)]
 Add(l, io) ==
-  /\ phase = "build" /\ Len(prog) < Len0 - 1
-  /\ prog' = Append(prog, l) /\ lastio' = (IF io THEN Len(prog) ELSE lastio)
-  /\ UNCHANGED <<phase, entry, epos, lbd, ref, asc, steps>>
-IoOK == Len(prog) - lastio >= 3
+  /\ phase = "build" /\ Len(Cur) < Len0 - 1
+  /\ progs' = [progs EXCEPT ![Len(progs)] = Append(@, l)] /\ lastio' = (IF io THEN Len(Cur) ELSE lastio)
+  /\ UNCHANGED <<phase, shape, ref, asc, steps>>
+IoOK == Len(Cur) - lastio >= 3
 BuildPlain == \E l \in Plain : Add(l, FALSE)
 BuildMacro == Add(L("twice", 0, 0, 0, ""), FALSE)
 BuildJump == \E l \in Jumps : Add(l, FALSE)
 BuildSend == \E l \in Sends : Add(l, TRUE)
 BuildRecv == \E l \in Recvs : Add(l, TRUE)
-\* TLC -simulate chooses uniformly among the sub-actions it can split Next into (it splits a
-\* top-level \E over a constant set, but not below an IF): the outer choice w draws the KIND of the
-\* next line with fixed odds, whatever the number of lines of each kind
-Build ==
-  \E w \in 1 .. 8 :
-    IF w <= 2 THEN BuildPlain
-    ELSE IF w = 3 THEN (IF MacroHeavy THEN BuildMacro ELSE BuildPlain)
-    ELSE IF w = 4 THEN BuildJump
-    ELSE IF w <= 6 THEN (IF IoOK THEN BuildSend ELSE BuildPlain)
-    ELSE IF w = 7 THEN (IF IoOK THEN BuildRecv ELSE BuildJump)
-    ELSE BuildPlain
 
 \* the last line is an unconditional jump: a program never runs off its end
 Close ==
-  /\ phase = "build" /\ Len(prog) = Len0 - 1
-  /\ \E t \in 0 .. Len0 - 1 : prog' = Append(prog, L("j", 0, 0, t, ""))
-  /\ UNCHANGED <<phase, entry, epos, lbd, ref, asc, steps, lastio>>
+  /\ phase = "build" /\ Len(Cur) = Len0 - 1
+  /\ \E t \in 0 .. Len0 - 1 : progs' = [progs EXCEPT ![Len(progs)] = Append(@, L("j", 0, 0, t, ""))]
+  /\ UNCHANGED <<phase, shape, ref, asc, steps, lastio>>
+
+NextCP ==
+  /\ phase = "build" /\ Len(Cur) = Len0 /\ Len(progs) < NCP
+  /\ progs' = Append(progs, <<>>) /\ lastio' = -10
+  /\ UNCHANGED <<phase, shape, ref, asc, steps>>
 
 \* ---- deviations of the pinned tree (known findings of C05) ------------------------------------
 \* the entry directive is parsed, checked and removed, and its position recorded in the section's
@@ -97,13 +112,21 @@ Close ==
 AsCodedEntry == 0
 
 Start ==
-  /\ phase = "build" /\ Len(prog) = Len0
-  /\ phase' = "run" /\ ref' = [ref EXCEPT !.pc = entry] /\ asc' = [asc EXCEPT !.pc = AsCodedEntry]
-  /\ UNCHANGED <<prog, entry, epos, lbd, steps, lastio>>
+  /\ phase = "build" /\ Len(Cur) = Len0 /\ Len(progs) = NCP
+  /\ phase' = "run"
+  /\ ref' = [ref EXCEPT !.cps = [c \in CPs |-> [M0 EXCEPT !.pc = entry]]]
+  /\ asc' = [asc EXCEPT !.cps = [c \in CPs |-> [M0 EXCEPT !.pc = AsCodedEntry]]]
+  /\ UNCHANGED <<progs, shape, steps, lastio>>
 
-\* one source line executed by an interpreter state m
-Step(m) ==
-  LET l == prog[m.pc + 1]
+\* ---- the interpreter ----------------------------------------------------------------------------
+Line(c, m) == progs[c + 1][m.pc + 1]
+IsLinkSend(c, l) == NCP = 2 /\ c = 0 /\ l.op = "send" /\ l.a = 1
+IsLinkRecv(c, l) == NCP = 2 /\ c = 1 /\ l.op = "recv"
+ExtPort(c, o) == IF NCP = 1 THEN o ELSE IF c = 0 THEN 0 ELSE 1 + o
+
+\* one line executed by processor state m; inval is the value a receive obtains
+Step(c, m, inval) ==
+  LET l == Line(c, m)
       regs == m.regs
   IN  [regs |-> CASE l.op = "clr" -> [regs EXCEPT ![l.a] = 0]
                   [] l.op = "inc" -> [regs EXCEPT ![l.a] = (@ + 1) % Mod]
@@ -112,30 +135,45 @@ Step(m) ==
                   [] l.op \in {"cpy", "movrr"} -> [regs EXCEPT ![l.a] = regs[l.b]]
                   [] l.op \in {"rset", "movri"} -> [regs EXCEPT ![l.a] = l.b]
                   [] l.op = "twice" -> [regs EXCEPT ![1] = (@ + 2) % Mod]
-                  [] l.op = "recv" -> [regs EXCEPT ![l.a] = (m.nin + 1) % Mod]
+                  [] l.op = "recv" -> [regs EXCEPT ![l.a] = inval]
                   [] OTHER -> regs,
-       nin  |-> IF l.op = "recv" THEN m.nin + 1 ELSE m.nin,
-       outs |-> IF l.op = "send" THEN Append(m.outs, <<l.a, regs[l.b]>>) ELSE m.outs,
+       nin  |-> IF l.op = "recv" /\ ~IsLinkRecv(c, l) THEN m.nin + 1 ELSE m.nin,
        pc   |-> CASE l.op = "j" -> l.t
                   [] l.op = "jz" -> (IF regs[l.a] = 0 THEN l.t ELSE m.pc + 1)
                   [] OTHER -> m.pc + 1]
 
+\* one round: every processor that is not blocked on the bond executes one line; the two ends of
+\* the bond execute together when both are there
+Round(s) ==
+  LET l(c) == Line(c, s.cps[c])
+      meet == NCP = 2 /\ IsLinkSend(0, l(0)) /\ IsLinkRecv(1, l(1))
+      blocked(c) == ~meet /\ (IsLinkSend(c, l(c)) \/ IsLinkRecv(c, l(c)))
+      inval(c) == IF IsLinkRecv(c, l(c)) THEN s.cps[0].regs[l(0).b] ELSE (s.cps[c].nin + 1) % Mod
+      ext(c) == IF ~blocked(c) /\ l(c).op = "send" /\ ~IsLinkSend(c, l(c))
+                THEN <<<<ExtPort(c, l(c).a), s.cps[c].regs[l(c).b]>>>> ELSE <<>>
+  IN  [cps  |-> [c \in CPs |-> IF blocked(c) THEN s.cps[c] ELSE Step(c, s.cps[c], inval(c))],
+       outs |-> IF NCP = 1 THEN s.outs \o ext(0) ELSE s.outs \o ext(0) \o ext(1)]
+
 Exec ==
   /\ phase = "run" /\ steps < Budget
   /\ steps' = steps + 1
-  /\ ref' = Step(ref) /\ asc' = Step(asc)
-  /\ UNCHANGED <<phase, prog, entry, epos, lbd, lastio>>
+  /\ ref' = Round(ref) /\ asc' = Round(asc)
+  /\ UNCHANGED <<phase, progs, shape, lastio>>
 
+\* TLC -simulate chooses uniformly among the sub-actions it can split Next into (it splits a
+\* top-level \E over a constant set, but not below an IF): the outer choice w draws the KIND of the
+\* next line with fixed odds, whatever the number of lines of each kind
 Next == \E w \in 1 .. 8 :
-          IF phase = "build" /\ Len(prog) < Len0 - 1
+          IF phase = "build" /\ Len(Cur) < Len0 - 1
           THEN (IF w <= 2 THEN BuildPlain
                 ELSE IF w = 3 THEN (IF MacroHeavy THEN BuildMacro ELSE BuildPlain)
                 ELSE IF w = 4 THEN BuildJump
                 ELSE IF w <= 6 THEN (IF IoOK THEN BuildSend ELSE BuildPlain)
                 ELSE IF w = 7 THEN (IF IoOK THEN BuildRecv ELSE BuildJump)
                 ELSE BuildPlain)
-          ELSE (w = 1 /\ (Close \/ Start \/ Exec))
+          ELSE (w = 1 /\ (Close \/ NextCP \/ Start \/ Exec))
 Spec == Init /\ [][Next]_vars
-TypeOK == /\ \A r \in Regs : ref.regs[r] \in 0 .. Mod - 1
-          /\ ref.pc \in 0 .. Len0 - 1 /\ asc.pc \in 0 .. Len0 - 1
+
+TypeOK == /\ \A c \in CPs : \A r \in Regs : ref.cps[c].regs[r] \in 0 .. Mod - 1
+          /\ \A c \in CPs : ref.cps[c].pc \in 0 .. Len0 - 1 /\ asc.cps[c].pc \in 0 .. Len0 - 1
 =============================================================================
